@@ -11,12 +11,14 @@ import (
 	"fmt"
 	"math"
 	"os"
+	"strings"
 )
 
 type item struct {
-	Kind string `json:"kind"`
-	Val  uint64 `json:"val"`
-	Arr  []int  `json:"arr,omitempty"`
+	Kind  string            `json:"kind"`
+	Val   uint64            `json:"val"`
+	Arr   []int             `json:"arr,omitempty"`
+	Files map[string][]byte `json:"files,omitempty"`
 }
 
 var vec []item
@@ -163,10 +165,27 @@ func F32Less(a, b float32) bool  { return a < b }
 func F32Eq(a, b float32) bool    { return a == b }
 
 // File-system model helpers: meaningful only inside the engine.
-func FsTraceLen() int              { return 0 }
+func FsTraceLen() int              { return int(next("tracelen").Val) }
 func FsTraceKind(k int) string     { return "" }
 func FsTraceWriteLen(k int) int    { return 0 }
-func FsCrash(k int, tear int)      {}
+
+// FsCrash: in the engine, replaces the file system by the state after the first k writes of the I/O
+// trace (write k torn after `tear` bytes). Natively (replay) the crash image computed by the engine for
+// the counterexample is installed into the working directory; the caller has closed the old instance.
+func FsCrash(k int, tear int) {
+	it := next("crash")
+	ents, _ := os.ReadDir(".")
+	for _, e := range ents {
+		if !e.IsDir() && (strings.HasSuffix(e.Name(), ".db") || strings.HasSuffix(e.Name(), ".log")) {
+			os.Remove(e.Name())
+		}
+	}
+	for name, data := range it.Files {
+		if err := os.WriteFile(name, data, 0666); err != nil {
+			panic(err)
+		}
+	}
+}
 func FsFileSize(name string) int64 { return -1 }
 
 // RunNative runs a harness natively against the replay vector and reports failed assertions.
